@@ -45,10 +45,10 @@ func (e *c07env) conn(i int) *symConn {
 func (e *c07env) openBody() []byte { return mkOpenBody(e.cfg.remoteAS, 90, e.remoteID) }
 
 func Verif_C07_collision_resolution() {
-	verifNote("real peer.start(): outbound FSM dials (scripted dial succeeds), inbound connection injected, both reach OpenSent; the remote's OPENs arrive in a symbolically chosen order with quiescence in between (so either connection reaches OpenConfirm first); local/remote identifier and AS symbolic 32-bit; start-up to 'both in OpenSent' under the base schedule, then all schedules with at most 1 (quick) / 2 (thorough) delays; then KEEPALIVE on the survivor")
-	d := 1
+	verifNote("real peer.start(): outbound FSM dials (scripted dial succeeds), inbound connection injected, both reach OpenSent; the remote's OPENs arrive in a symbolically chosen order with quiescence in between (so either connection reaches OpenConfirm first); local/remote identifier and AS symbolic 32-bit; start-up to 'both in OpenSent' under the base schedule, then all schedules with at most 2 (quick) / 3 (thorough) delays (sleep-set reduced); then KEEPALIVE on the survivor")
+	d := 2
 	if verifTier() >= 1 {
-		d = 2
+		d = 3
 	}
 	e := c07Setup(d)
 	verifAssert("both-sent-open", e.out.wroteOpenFirst() && e.in.wroteOpenFirst())
@@ -99,7 +99,7 @@ func init() {
 // one connection is Established before the other completes its OPEN exchange: it is kept
 func Verif_C07_established_wins() {
 	verifNote("one connection completes OPEN+KEEPALIVE (Established) while the other is still in OpenSent; then the other's OPEN arrives: the Established one is kept regardless of identifiers")
-	e := c07Setup(1)
+	e := c07Setup(2)
 	first := verifChoose("established-first", 2)
 	second := other(first)
 	e.conn(first).send(openMessageType, e.openBody())
@@ -117,10 +117,10 @@ func Verif_C07_established_wins() {
 // race: the second OPEN and the first connection's KEEPALIVE arrive together, so the manager's
 // collision select races with the first FSM asking for Established
 func Verif_C07_collision_race() {
-	verifNote("race variant: the second connection's OPEN and the first connection's KEEPALIVE arrive without quiescence in between (all interleavings within the delay bound: 1 quick / 2 thorough; select arms that are ready together are always all explored)")
-	d := 1
+	verifNote("race variant: the second connection's OPEN and the first connection's KEEPALIVE arrive without quiescence in between (all interleavings within the delay bound: 2 quick / 3 thorough; select arms that are ready together are always all explored)")
+	d := 2
 	if verifTier() >= 1 {
-		d = 2
+		d = 3
 	}
 	e := c07Setup(d)
 	first := verifChoose("first-to-openconfirm", 2)
